@@ -8,7 +8,8 @@ by calling beanquery.
 E  tables   for each of the 12 column datatypes (int, decimal, str, date, bool, set, dict, object, Amount,
             Position, Cost, Inventory): every column of 0..3 cells over the datatype's alphabet (NULL,
             negatives, zero, differing precision, 1/3, scientific notation, six currencies, empty / multi-lot /
-            seven-slot inventories ...), once with a one-letter header and once with a 20-letter header;
+            seven-slot inventories ...), once with a one-letter header and once with a 20-letter header (quick
+            tier: 0..2 cells under the long header);
             every ordered pair of datatypes side by side with 1..2 rows over reduced alphabets; the empty
             result (0 rows) of every datatype, also through beanquery.render.text.render.
    options  boxed x unicode x spaced x expand x narrow x nullvalue {'', 'NULL'} x listsep {'  ', ', '}:
@@ -110,17 +111,17 @@ def alphabets(seed, thorough):
         'inventory': [None, I(), I(P('1', 'USD')), inv2, inv3, inv7] + plus(I(P('-8.80750', 'USD'), P('7', 'EUR'), hool1, hool2)),
     }
     reduced = {
-        'int': [None, -300, o_int] + plus(0),
-        'decimal': [None, D('-1.5'), D('0.50'), o_dec] + plus(D('1E+3')),
-        'str': [None, '', o_str] + plus('p,q'),
-        'date': [None, datetime.date(2020, 2, 29)] + plus(datetime.date(900, 1, 1)),
+        'int': [None, -300, o_int],
+        'decimal': [None, D('-1.5'), D('0.50'), o_dec],
+        'str': [None, '', o_str],
+        'date': [None, datetime.date(2020, 2, 29)],
         'bool': [None, True, False],
-        'set': [None, frozenset(), frozenset({'a', 'bcd'})] + plus(frozenset({'a'})),
-        'dict': [None, {'k': 1}] + plus({}),
-        'object': [None, D('2.50'), 'x'] + plus(True),
+        'set': [None, frozenset(), frozenset({'a', 'bcd'})],
+        'dict': [None, {'k': 1}],
+        'object': [None, D('2.50'), 'x'],
         'amount': [None, A(o_amt, 'USD'), A('-1000', 'HOOL'), A('3.14159', 'USD')] + plus(A('0', 'EUR')),
-        'position': [None, hool1, P('-3', 'USD')] + plus(P('7', 'EUR')),
-        'cost': [None, C('2.50', 'USD', d1, 'lbl'), C('1234.5678', 'EUR', d2)] + plus(C('3.00', 'USD', d1)),
+        'position': [None, hool1, P('-3', 'USD')],
+        'cost': [None, C('2.50', 'USD', d1, 'lbl'), C('1234.5678', 'EUR', d2)],
         'inventory': [None, I(), inv2, inv3] + plus(inv7),
     }
     return full, reduced
@@ -151,7 +152,8 @@ def tables(seed, thorough):
     full, reduced = alphabets(seed, thorough)
     for t in DTORDER:
         for name in ('c', 'a_rather_long_header'):
-            for n in range(0, 4):
+            # quick tier: the long header (which only interacts with the column width) on columns of <= 2 cells
+            for n in range(0, 4 if (thorough or name == 'c') else 3):
                 for vals in itertools.product(full[t], repeat=n):
                     yield ('single', (name,), (t,), [(v,) for v in vals])
     for t1 in DTORDER:
@@ -444,7 +446,6 @@ def shard(shard_no, nshards, seed, thorough):
     st = new_stats()
     opts_all = all_options()
     opts_pair = opts_all if thorough else oa16_options()
-    default = opts_all[0]
     for idx, (kind, names, dtnames, rows) in enumerate(tables(seed, thorough)):
         if not mine(idx, shard_no, nshards):
             continue
@@ -468,12 +469,13 @@ def shard(shard_no, nshards, seed, thorough):
             for k, loc, j, msg in tc.run(o):
                 fp = fingerprint(k, loc, j, names, dtnames, rows, o)
                 record(acc, fp, f'{msg} -- {describe(names, dtnames, rows, o)}', make_case(names, dtnames, rows, o))
-            if o is default or (kind == 'pair' and oi == 0):
-                acc.add('outputs', hash(st.get('text')))
-                acc.add('widths', len(st.get('text', '').split('\n', 1)[0]))
+            if oi == 0:
+                first_text = st.get('text')
+                acc.add('outputs', hash(first_text))
+                acc.add('widths', len((first_text or '').split('\n', 1)[0]))
         if idx % 4001 == 0:
             acc.sample({'columns': [f'{n}:{t}' for n, t in zip(names, dtnames)], 'rows': [[R.show(v) for v in r] for r in rows],
-                        'text_default_options': st.get('text')})
+                        'options': dict(opts[0]), 'text': first_text})
     st.pop('text', None)
     st.pop('cell', None)
     for k, v in st.items():
@@ -514,7 +516,8 @@ def run(ctx):
                 'renderer calls read back (text + CSV), evaluations = cells / headers / CSV fields compared; distinct & non-trivial = distinct '
                 'texts emitted under one fixed option combination per table',
         'exhaustive': True,
-        'bound': 'single columns <= 3 cells x 128 option combinations; pairs <= 2 rows x ' + ('128' if ctx.thorough else '16 (orthogonal array, strength 3)'),
+        'bound': ('single columns <= 3 cells under both headers' if ctx.thorough else 'single columns <= 3 cells (short header) / <= 2 cells (long header)')
+                 + ' x 128 option combinations; pairs <= 2 rows x ' + ('128' if ctx.thorough else '16 (orthogonal array, strength 3)'),
         'tables': n['tables'], 'tables_single': n['tables_single'], 'tables_pair': n['tables_pair'],
         'tables_with_a_non_null_cell': n['tables_nontrivial'], 'empty_results': n['empty_results'],
         'empty_results_through_render_text_module': n['empty_wrapper_calls'],
